@@ -1,6 +1,7 @@
 import Ptk.Proto
 import Ptk.Model.C17
 import Ptk.Model.C17Buf
+import Ptk.Model.C17Flush
 open Ptk Ptk.Py Ptk.Proto Ptk.C17
 
 /-! Line protocol of the C17 driver.
@@ -129,6 +130,58 @@ def goB (k : Nat) : Nat → BSt → List String → Option BSt
 
 end B
 
+/-! third layer (`Ptk.C17.Flush`):  FL T <events…>   events: r t n p1..pn | m t
+     pieces: k<key code> | h<k> | t<k>;  reply = what the input object delivered -/
+namespace FL
+open Ptk.C17.Flush
+
+def decPiece (t : String) : Option Piece :=
+  if t.startsWith "k" then (decKey (t.drop 1).toString).map Piece.key
+  else if t.startsWith "h" then (decNat (t.drop 1).toString).map Piece.head
+  else if t.startsWith "t" then (decNat (t.drop 1).toString).map Piece.tail
+  else none
+
+def takePieces : Nat → List String → Option (List Piece × List String)
+  | 0, ts => some ([], ts)
+  | _ + 1, [] => none
+  | n + 1, t :: ts => do
+    let p ← decPiece t
+    let (ps, rest) ← takePieces n ts
+    pure (p :: ps, rest)
+
+def encOut : Out → String
+  | .key k => encKey k
+  | .esc => toString (0x110000 + 12)
+  | .junk k => s!"J{k}"
+
+def go : Nat → P → List String → Option P
+  | 0, _, _ => none
+  | fuel + 1, p, ts =>
+    match ts with
+    | [] => some p
+    | "m" :: t :: ts => (decNat t).bind fun t => go fuel (Flush.step p (.timer t)) ts
+    | "r" :: t :: n :: ts =>
+      match decNat t, decNat n with
+      | some t, some n =>
+        match takePieces n ts with
+        | some (ps, rest) => go fuel (Flush.step p (.read t ps)) rest
+        | none => none
+      | _, _ => none
+    | _ => none
+
+def handle (toks : List String) : String :=
+  match toks with
+  | T :: evs =>
+    match decNat T with
+    | some T =>
+      match go (evs.length + 1) (P.init T) evs with
+      | some p => s!"out={encList encOut p.out}"
+      | none => "bad-op"
+    | none => "bad-op"
+  | _ => "bad-op"
+
+end FL
+
 /-- driver state: the model state and the number of prompts the harness will start -/
 abbrev DS := (St × Nat) × B.BSt
 
@@ -185,6 +238,8 @@ def stepLine (ds : DS) (toks : List String) : DS × String :=
     | none => bad
   | ["F"] => ret (step s .finish)
   | ["E"] => ret (endWaitEv s)
+  | ["A"] => ret s                       -- virtual time passes: nothing in the first layer
+  | "FL" :: rest => (ds, FL.handle rest)
   | "E2E" :: k :: r :: evs =>
     match decNat k, decBool r with
     | none, _ => bad
